@@ -1,6 +1,6 @@
 //! C19 — implementation side: Path API (in-process), Explorer over HTTP (child process running the
 //! real `serve()`), on-demand checker driven directly (in-process, watchdogs).
-use srh::graph_small::{exp_letter, GenCfg, GraphModel};
+use srh::graph_small::{enumerate_small, exp_letter, GenCfg, GraphModel};
 use srh::out::*;
 use srh::rng::Rng;
 use stateright::actor::{Actor, ActorModel, Id, LossyNetwork, Network, Out as AOut};
@@ -973,8 +973,17 @@ fn on_demand_case(g0: &GraphModel, r: &mut Rng, out: &mut Out, threads: usize) {
     let gsx = e.sx();
     let fsx = e.fps_sx();
     let sid = |s: u16| e.texts.iter().position(|t| *t == s.to_string());
-    let (rec, acc) = StateRecorder::new_with_accessor();
-    let checker = g.clone().checker().threads(threads).visitor(rec).spawn_on_demand();
+    // the visitor is handed reconstruct_path(generated, fp) of every evaluated state
+    let vlog: Arc<Mutex<Vec<Vec<(u16, Option<srh::graph_small::Act>)>>>> = Arc::new(Mutex::new(Vec::new()));
+    let vlog2 = vlog.clone();
+    let vlog3 = vlog.clone();
+    let acc = move || -> Vec<u16> { vlog2.lock().unwrap().iter().map(|p| p.last().unwrap().0).collect() };
+    let checker = g
+        .clone()
+        .checker()
+        .threads(threads)
+        .visitor(move |p: Path<u16, srh::graph_small::Act>| vlog3.lock().unwrap().push(p.into_vec()))
+        .spawn_on_demand();
     let nz = |fp: u64| std::num::NonZeroU64::new(fp).unwrap();
     // the harness's own simulation of pending / generated (mirrors the declarative oracle)
     let mut pend: Vec<u16> = g.init_b();
@@ -1074,6 +1083,50 @@ fn on_demand_case(g0: &GraphModel, r: &mut Rng, out: &mut Out, threads: usize) {
         }
     };
     let visited = acc();
+    // every path shown to the visitor = the model's reconstruct_path over the `generated` map that the
+    // observed evaluation order implies (single worker: a state's new in-boundary successors point to it)
+    if threads == 1 {
+        let mut genmap: Vec<(u16, Option<u16>)> = Vec::new();
+        for s in g.init_b() {
+            if !genmap.iter().any(|e| e.0 == s) {
+                genmap.push((s, None));
+            }
+        }
+        let paths = vlog.lock().unwrap().clone();
+        for pth in &paths {
+            let s = pth.last().unwrap().0;
+            for t in g.succ_b(s) {
+                if !genmap.iter().any(|e| e.0 == t) {
+                    genmap.push((t, Some(s)));
+                }
+            }
+        }
+        let gen_sx = format!(
+            "({})",
+            genmap
+                .iter()
+                .map(|(k, p)| match p {
+                    Some(p) => format!("({} {})", all_fps[*k as usize], all_fps[*p as usize]),
+                    None => format!("({} x)", all_fps[*k as usize]),
+                })
+                .collect::<Vec<_>>()
+                .join(" ")
+        );
+        for pth in paths.iter().rev().take(6) {
+            let txt: Vec<String> = pth
+                .iter()
+                .flat_map(|(s, a)| {
+                    let mut x = vec![s.to_string()];
+                    if let Some(a) = a {
+                        x.push(a.0.to_string());
+                    }
+                    x
+                })
+                .collect();
+            out.m(&format!("reconstruct {} {} {} {}", gsx, fsx, gen_sx, all_fps[pth.last().unwrap().0 as usize]), &format!("({})", txt.join(" ")));
+            out.stat(&format!("reconstruct-path-len-{}", pth.len().min(6)));
+        }
+    }
     // like BFS
     let (rec2, acc2) = StateRecorder::new_with_accessor();
     let b = g.clone().checker().visitor(rec2).spawn_bfs().join();
@@ -1104,6 +1157,20 @@ fn on_demand_case(g0: &GraphModel, r: &mut Rng, out: &mut Out, threads: usize) {
     out.stat(&format!("on-demand-threads-{}", threads));
     out.stat_n("on-demand-states-evaluated", visited.len() as u64);
     out.distinct(&(21u8, g.sx(), reqs.clone(), order, threads));
+}
+
+/// the exhaustive small scope S(2) (2 states, out-degree <= 2, all boundaries, all init sets: 2 028 models),
+/// every `stride`-th model starting at `offset`, with three fixed properties
+fn small_scope(stride: u64, offset: u64) -> Vec<GraphModel> {
+    let props = [(Expectation::Always, 0b01u32), (Expectation::Sometimes, 0b10), (Expectation::Eventually, 0b10)];
+    let mut v = Vec::new();
+    enumerate_small(2, 2, &props, |i, g| {
+        if i % stride == offset % stride {
+            v.push(g.clone());
+        }
+        true
+    });
+    v
 }
 
 // =============================================================================================
@@ -1144,6 +1211,12 @@ fn main() {
                 path_api_cases(&g, &e, &mut rng, &mut out, 8);
             }
         }
+        for g in small_scope(if thorough { 1 } else { 2 }, seed()) {
+            if let Some(e) = explicit_graph(&g) {
+                path_api_cases(&g, &e, &mut rng, &mut out, 4);
+                out.stat("path-small-scope-models");
+            }
+        }
         out.sample("path api: random executions of random GraphModels through from_actions / encode / into_* / last_state, plus broken action lists and non-initial start states");
     }
 
@@ -1154,6 +1227,10 @@ fn main() {
             let g = GraphModel::random(&mut rng, &cfg);
             let threads = if k % 10 == 9 { 2 } else { 1 };
             on_demand_case(&g, &mut rng, &mut out, threads);
+        }
+        for g in small_scope(if thorough { 2 } else { 16 }, seed()) {
+            on_demand_case(&g, &mut rng, &mut out, 1);
+            out.stat("on-demand-small-scope-models");
         }
         out.sample("on-demand: spawn_on_demand + seeded check_fingerprint / run_to_completion orders, visitor log vs declarative pending set, final result vs spawn_bfs");
     }
@@ -1183,7 +1260,13 @@ fn main() {
             A(String),
         }
         let mut jobs: Vec<(Job, Rng)> = Vec::new();
-        for _ in 0..n_graphs {
+        let n_small = n_graphs * 3 / 10;
+        let mut small = small_scope(1, 0);
+        rng.shuffle(&mut small);
+        for g in small.into_iter().take(n_small) {
+            jobs.push((Job::G(g), rng.fork()));
+        }
+        for _ in 0..(n_graphs - n_small) {
             let g = GraphModel::random(&mut rng, &cfg);
             jobs.push((Job::G(g), rng.fork()));
         }
